@@ -4,7 +4,7 @@
    (any number of dial starts / completions, releases, idle timers, exchange starts, cancellations and
    Close calls, in any order).  "Returns promptly" is timed by the harness, not proved. *)
 From Mos Require Import Base.Prelude Net.Shutdown Net.ShutdownProofs Net.ShutdownOwn Net.ShutdownOwnProofs
-  Router.Startup Router.StartupProofs.
+  Router.Startup Router.StartupProofs Router.StartupInit Router.StartupInitProofs.
 
 (* ------------------------------------------------------------------------------------------------
    Close is total and idempotent: it is always enabled, marks the transport closed, and a second Close
@@ -352,6 +352,81 @@ Theorem C18_big_refines_small_quic : forall h es s,
 Proof. intros h es s. apply sdq_bigs_refines. Qed.
 Print Assumptions C18_big_refines_small_quic.
 
+(* ------------------------------------------------------------------------------------------------
+   Start-up, inside a component's init (Router/StartupInit.v): an init is a program check* ; acquire ;
+   (check | acquire)* ; register; a statement can fail after something was acquired, and what the init holds
+   then is in no table of the router, so the deferred r.close(err) cannot reach it. *)
+
+(* a program loses nothing, wherever it fails, iff it is "safe": every statement that can fail while the init
+   holds something releases it on its error path, and nothing is held when the init returns *)
+Theorem C18_init_safe_iff : forall p,
+  si_safeb p = true <-> forall f, si_lost (fst (si_exec p 0 f si_st0)) = [].
+Proof. exact si_safe_iff. Qed.
+Print Assumptions C18_init_safe_iff.
+
+(* the init program of every component kind of run() is safe (the code with the round-4 fixes) *)
+Theorem C18_init_programs_safe : forall k, si_safeb (si_prog_of false k) = true.
+Proof. exact si_progs_safe. Qed.
+Print Assumptions C18_init_programs_safe.
+
+(* every acquired resource is either registered (hence released by close) or released on the error path:
+   for EVERY configuration (list of components, any kinds, any number) and EVERY failing statement of every init,
+   after a failed run() nothing is lost, held or registered and every resource that was acquired has been
+   released exactly once; after a successful run() every resource is registered exactly once, nothing has been
+   released, and close releases each exactly once *)
+Theorem C18_init_no_leak : forall (items : list si_item) f st r,
+  si_run (map (fun it => si_prog_of false (fst it)) items) f = (st, r) ->
+  si_lost st = [] /\ si_held st = [] /\
+  (r <> None -> si_regd st = [] /\ forall id, id < si_next st -> si_count id (si_freed st) = 1) /\
+  (r = None -> si_freed st = [] /\
+               (forall id, id < si_next st -> si_count id (si_regd st) = 1) /\
+               si_regd (si_close st) = [] /\
+               forall id, id < si_next st -> si_count id (si_freed (si_close st)) = 1).
+Proof. intros items f st r H. eapply si_run_no_leak; [apply si_progs_all_safe|exact H]. Qed.
+Print Assumptions C18_init_no_leak.
+
+(* whatever the programs: after a failed run() each acquired resource is released exactly once or lost *)
+Theorem C18_init_accounting : forall comps f st k,
+  si_run comps f = (st, Some k) ->
+  si_held st = [] /\ si_regd st = [] /\
+  forall id, id < si_next st -> si_count id (si_freed st) + si_count id (si_lost st) = 1.
+Proof. exact si_run_accounting. Qed.
+Print Assumptions C18_init_accounting.
+
+(* "check after build without release" is refuted: the program with the duplicate-tag check behind NewUpstream
+   (and the two programs of the tree before the round-4 fixes) is unsafe, and a second quic / h3 upstream with a
+   duplicate tag leaves one UDP socket open after the failed run() *)
+Theorem C18_init_check_after_build_refuted :
+  si_safeb (si_prog_up_check_after_build SiUpSock) = false /\
+  si_safeb (si_prog_of true (SiKUp SiUpSock)) = false /\
+  si_safeb (si_prog_of true (SiKCache true true false)) = false /\
+  exists st, si_run [si_prog_of false (SiKUp SiUpLazy); si_prog_up_check_after_build SiUpSock] (Some (1, 4))
+             = (st, Some 1) /\ si_socks (si_lost st) = 1 /\ si_regd st = [] /\ length (si_freed st) = 1.
+Proof.
+  destruct si_progs_pinned_unsafe as (A & B & C). repeat split; auto.
+  eexists. split; [vm_compute; reflexivity|]. repeat split.
+Qed.
+Print Assumptions C18_init_check_after_build_refuted.
+
+(* configuration errors are reported: a fault that is an error (si_fault_stmt) makes run() fail at that
+   component, for every component kind; in particular a listener that needs a certificate and has none, only a
+   cert, only a key, an unreadable / garbage / mismatching pair, a bad ca file or verify_client_cert without ca *)
+Theorem C18_config_fault_reported : forall k f j,
+  In k si_all_kinds -> si_fault_stmt k f = Some j ->
+  snd (si_run [si_prog_of false k] (Some (0, j))) = Some 0.
+Proof. exact si_fault_reported. Qed.
+Print Assumptions C18_config_fault_reported.
+
+Theorem C18_bad_cert_is_error : forall s f,
+  In s [SiSrvTls; SiSrvHttps; SiSrvQuic] ->
+  In f [SfNoCert; SfCertOnly; SfKeyOnly; SfCertMissing; SfCertGarbage; SfMismatch; SfCaMissing; SfCaGarbage; SfVccNoCa] ->
+  si_fault_stmt (SiKSrv s) f <> None.
+Proof.
+  intros s f Hs Hf. pose proof si_bad_cert_is_error as A. rewrite forallb_forall in A. specialize (A s Hs).
+  rewrite forallb_forall in A. specialize (A f Hf). destruct (si_fault_stmt (SiKSrv s) f); [discriminate|discriminate].
+Qed.
+Print Assumptions C18_bad_cert_is_error.
+
 (* ---------------- non-vacuity ---------------- *)
 (* Close while a dial is in flight whose result arrives later: the late connection is closed on arrival,
    the waiting caller gets an error, nothing stays open *)
@@ -431,3 +506,21 @@ Example C18_example_quic_owns_three :
   | None => (0, 0, false, false, 9, [], false)
   end = (1, 3, true, true, 0, [Some false], true).
 Proof. vm_compute. reflexivity. Qed.
+
+(* metrics, a udp and a quic upstream, memory cache + marker, a udp and a quic listener, then a tls listener with
+   only a cert: run() reports the error of item 7 and everything acquired on the way (metrics listener, quic
+   upstream with its socket, the memory cache, two listeners) is released *)
+Example C18_example_init_half_cert :
+  let items := [(SiKMetrics, None); (SiKUp SiUpLazy, None); (SiKUp SiUpSock, None); (SiKSet, None);
+                (SiKCache true false true, None); (SiKSrv SiSrvUdp, None); (SiKSrv SiSrvQuic, None);
+                (SiKSrv SiSrvTls, Some SfCertOnly)] in
+  si_first_fault items 0 = Some (7, 1) /\ si_observe false items = (true, 0, false) /\
+  (let '(st, r) := si_run (map (fun it => si_prog_of false (fst it)) items) (si_first_fault items 0) in
+   (r, length (si_freed st), si_socks (si_freed st))) = (Some 7, 7, 4).
+Proof. vm_compute. repeat split. Qed.
+
+(* the tree before the fix: memory cache then a bad redis url - the memory cache (goroutines) is lost *)
+Example C18_example_init_cache_pinned :
+  si_observe true [(SiKCache true true false, Some SfBadRedis); (SiKSrv SiSrvUdp, None)] = (true, 0, true) /\
+  si_observe false [(SiKCache true true false, Some SfBadRedis); (SiKSrv SiSrvUdp, None)] = (true, 0, false).
+Proof. vm_compute. split; reflexivity. Qed.
